@@ -134,6 +134,7 @@ func main() {
 	genListen()
 	genSvcStart()
 	genHooks()
+	genActivate()
 	genBounds()
 	genMsgBounds()
 	if forProp == "" || forProp == "C15" {
